@@ -23,6 +23,7 @@ LENSES = {
     "C01": "c01",
     "C02": "c02",
     "C03": "c03",
+    "C05": "c05",
     "C07": "c07",
 }
 
